@@ -85,6 +85,7 @@ func (c *Col) Decl() string {
 // Check is the only generated CHECK shape: a conjunction of comparisons of one
 // column with constants: col >= Lo [AND col < Hi].
 type Check struct {
+	Name  string // constraint name (CONSTRAINT <name> CHECK ...); empty: unnamed
 	Col   string
 	Lo    int64
 	HasHi bool
@@ -189,7 +190,11 @@ func (t *Table) CreateSQL() string {
 		parts = append(parts, c.Decl())
 	}
 	for _, k := range t.Checks {
-		parts = append(parts, "CHECK ("+k.Expr()+")")
+		if k.Name != "" {
+			parts = append(parts, "CONSTRAINT "+k.Name+" CHECK ("+k.Expr()+")")
+		} else {
+			parts = append(parts, "CHECK ("+k.Expr()+")")
+		}
 	}
 	if len(t.PK) == 1 {
 		parts = append(parts, "PRIMARY KEY "+t.PK[0])
@@ -254,7 +259,7 @@ type Stmt struct {
 
 func (s *Stmt) isDDL() bool {
 	switch s.Kind {
-	case "create-index", "create-unique-index", "add-column", "drop-column", "rename-column":
+	case "create-index", "create-unique-index", "add-column", "drop-column", "rename-column", "drop-constraint":
 		return true
 	}
 	return false
@@ -329,6 +334,8 @@ func (s *Stmt) SQL(pfx string, params map[string]any) string {
 		return "ALTER TABLE " + s.Table + " DROP COLUMN " + s.Col
 	case "rename-column":
 		return "ALTER TABLE " + s.Table + " RENAME COLUMN " + s.Col + " TO " + s.NewName
+	case "drop-constraint":
+		return "ALTER TABLE " + s.Table + " DROP CONSTRAINT " + s.Col
 	}
 	return "?"
 }
